@@ -786,6 +786,7 @@ def main(tier, replay=None):
         threads.append(threading.Thread(target=run_model))
     threads.append(threading.Thread(target=ext_part, args=(chk, vf.Rng(chk.seed + 77), tier, dist_ext, drv)))
     threads.append(threading.Thread(target=vec_part, args=(chk, vf.Rng(chk.seed + 78), himpl, dist_ext)))
+    threads.append(threading.Thread(target=e1_part, args=(chk, vf.Rng(chk.seed + 79), himpl, dist_ext)))
     for th in threads:
         th.start()
     for fc in fields:
@@ -1152,6 +1153,67 @@ def maxn_numerator():
     return None
 
 
+def e1_part(chk, rng, himpl, dist):
+    """GFqDom(P, 1, modPoly) and GFqDom(P, 1, modPoly, genPoly): the polynomial constructors with a modulus of degree 1
+    (X, X + c, non-monic a X + c): F_p[X]/(f) = F_p.  Each field in its own process (the constructor corrupted the heap
+    before its repair, which would take the whole stream down)."""
+    site = "GFqDom::GFqDom(P,1,modPoly)"
+    cases = [(64, 7, [0, 1], None), (32, 7, [0, 1], None), (64, 5, [0, 1], None), (32, 2, [0, 1], None), (64, 7, [3, 1], None), (32, 13, [5, 2], None),
+             (64, 3, [0, 1], None), (32, 251, [0, 1], None), (64, 11, [0, 1], [2]), (32, 7, [3, 1], [5]), (64, 13, [-1, 14], [15])]
+    for ci, (T, p, mod, gen) in enumerate(cases):
+        ctor = "mod" if gen is None else "modgen"
+        way = WAYS[ci % len(WAYS)]
+        o2 = other_field(ci, p, 1)
+        head = "field %d %s:%s:%d:%d %d 1 | %s" % (T, ctor, way, o2[0], o2[1], p, " ".join(map(str, mod))) + ("" if gen is None else " | " + " ".join(map(str, gen)))
+        N = p - 1
+        els = list(range(p)) if p <= 13 else [0, 1, 2, N, N - 1, N // 2] + [rng.range(0, N) for _ in range(6)]
+        ops = [("op %s %d %d" % (v, a, b), v, a, b, 0) for v in ("add", "sub", "mul", "div", "addin", "subin", "mulin", "divin") for a in els for b in els]
+        ops += [("op %s %d" % (v, a), v, a, 0, 0) for v in ("neg", "inv", "negin", "invin") for a in els]
+        ops += [("op %s %d %d %d" % (v, a, b, c), v, a, b, c) for v in ("axpy", "axmy", "maxpy", "axpyin", "axmyin", "maxpyin")
+                for a in els[:5] for b in els[:5] for c in els[:5]]
+        cv = [0, 1, p - 1, p, p + 1, 2 * p + 3, rng.range(0, 10 * p)]
+        lines = [head] + [o[0] for o in ops] + ["cvt i64 %d" % x for x in cv]
+        rc, out, err = run_impl(himpl, "\n".join(lines) + "\n", 120, 1200)
+        dist["form:GFqDom::GFqDom(P,1,modPoly%s)" % ("" if gen is None else ",genPoly")] = dist.get("form:GFqDom::GFqDom(P,1,modPoly%s)" % ("" if gen is None else ",genPoly"), 0) + 1
+        chk.count(("e1", head))
+        case = {"field": head}
+        if rc == 124:
+            inconclusive(chk, "process for '%s' reached the wall-clock limit" % head)
+            continue
+        if rc != 0 or len(out) != len(lines):
+            chk.fail_input(site, "e=1", case, "a field and %d answers" % (len(lines) - 1), "rc=%s, %d/%d lines" % (rc, len(out), len(lines)), err[-300:])
+            continue
+        t = out[0].split()
+        if len(t) < 10 or t[0] != "F" or "T" not in t:
+            chk.fail_input(site, "e=1", case, "a field", out[0][:200])
+            continue
+        x = t.index("X")
+        g = int(t[x + 2])
+        P = PF(p, 1, p)
+        itab = [[int(v) for v in part.split()] for part in " ".join(t[t.index("T") + 1:]).split("|")]
+        if not (1 <= g < p) or not P.order_is_full(P.elt(g)) or itab != [list(tb) for tb in P.tables(P.elt(g))] or [int(t[1]), int(t[2]), int(t[3])] != [p, N, (N if p == 2 else N // 2)]:
+            chk.fail_input(site, "e=1", case, "generator reduced modulo the modulus (a primitive root below p) and the tables of F_p for it",
+                           "generator %d, tables %s" % (g, str(itab)[:200]))
+            continue
+        if gen is not None and g != sum(c * p ** i for i, c in enumerate(gen)) % p and len(gen) == 1:
+            chk.fail_input(site, "stored-generator", case, gen[0] % p, g)
+        l2p = itab[0]
+        val = lambda a: P.elt(l2p[a]) if 0 <= a < len(l2p) else None
+        nbad = 0
+        for (line, v, a, b, c), got in zip(ops, out[1:]):
+            chk.count(("e1", head, line), nontrivial=(a != 0))
+            exp = spec_op(P, v, val(a), val(b), val(c))
+            if exp is None:
+                continue
+            if (not got.lstrip("-").isdigit() or val(int(got)) != exp) and nbad < 5:
+                nbad += 1
+                chk.fail_input(site, "e=1", dict(case, line=line), "rep of %s" % P.num(exp), got)
+        for xv, got in zip(cv, out[1 + len(ops):]):
+            tt = got.split()
+            if len(tt) != 2 or tt[1] != str(xv % p):
+                chk.fail_input(site, "e=1", dict(case, line="cvt i64 %d" % xv), xv % p, got)
+
+
 def build_harness_retry(src, **kw):
     """vf.build_harness; retried when the shared library cache entry was pruned by a concurrent run between
     build_repo_lib() and the link step (many checks share build/cache)."""
@@ -1171,7 +1233,7 @@ XCODE = {"add": 0, "addin": 0, "sub": 1, "subin": 1, "mul": 2, "mulin": 2, "neg"
 
 
 def ext_part(chk, rng, tier, dist, drv=None):
-    """Extension<GFqDom<int64_t>|Modular<int64_t>>, GFqExtFast/GFqExt<int32_t>, GF2 against the F_p[X]/(f) oracle.
+    """Extension<GFqDom<int64_t>|Modular<int64_t>|GF2>, GFqExtFast/GFqExt<int32_t>, GF2 against the F_p[X]/(f) oracle.
     (GFqKronecker cannot be compiled in this tree: see harness/c05_ext.C.)"""
     h, l = build_harness_retry("c05_ext.C", deps=("c05_alias.h",))
     if h is None:
@@ -1238,8 +1300,11 @@ def ext_part(chk, rng, tier, dist, drv=None):
     per = 10 if tier == "quick" else 80
     # every way of obtaining the Extension object: rotated over the list + all ways on two small fields (both base types)
     XW = "acosht"
-    exts = [ex + (XW[i % len(XW)],) if len(ex) == 4 else ex + (XW[i % len(XW)],) for i, ex in enumerate(exts)]
+    exts = [ex + (XW[i % len(XW)],) for i, ex in enumerate(exts)]
+    n_rot = len(exts)          # the objects after these (all ways on small fields, Extension<GF2>) get a lighter load each
     exts += [("gfq", "bf", 3, 2, w) for w in XW] + [("mod", "bf", 5, 2, w) for w in XW] + [("gfq", "pe", 2, 6, w) for w in "cot"]
+    # Extension<GF2> (Poly1Dom<GF2>: the std::vector<bool>::reference overloads of GF2 used by a real client)
+    exts += [("gf2", "bf", 2, 5, "a"), ("gf2", "pol", 2, 3, "o"), ("gf2", "bf", 2, 7, "h"), ("gf2", "pol", 2, 6, "c"), ("gf2", "bf", 2, 2, "t"), ("gf2", "bf", 2, 4, "s")]
     for xi, ex in enumerate(exts):
         (base, ctor, p, k), way = ex[:4], ex[-1]
         sb = ex[4] if len(ex) > 5 else 1
@@ -1271,7 +1336,7 @@ def ext_part(chk, rng, tier, dist, drv=None):
             for _ in range(per):
                 L.append(("eop %s %d %d %d" % (v, el(), el(), el()), "eop", v))
         first_small = (q <= 9 and not any(x[1] == "eopa" for x in L))
-        for line, v, pat, vals in alias_lines(rng, "eopa", q, 2 if tier == "quick" else 8,
+        for line, v, pat, vals in alias_lines(rng, "eopa", q, (1 if xi >= n_rot else 2) if tier == "quick" else 8,
                                               exhaustive=(("axpy", "axmy", "maxpy", "axpyin", "maxpyin", "axmyin") if first_small else ())):
             L.append((line, "eopa", (v, pat, vals)))
         for _ in range(per):
@@ -1446,7 +1511,7 @@ def ext_part(chk, rng, tier, dist, drv=None):
                 chk.fail_input("GF2::" + v, ("bitref" if " b " in line else "element") + " alias " + pat, {"line": line}, e, got)
         elif kind == "ext":
             base, ctor, p, k, mod = meta
-            ctx = "Extension<%s>/%s/%s GF(%d^%d)" % ("GFqDom<int64_t>" if base == "gfq" else "Modular<int64_t>", ctor, line.split("w=")[-1][0], p, k)
+            ctx = "Extension<%s>/%s/%s GF(%d^%d)" % ({"gfq": "GFqDom<int64_t>", "gf2": "GF2"}.get(base, "Modular<int64_t>"), ctor, line.split("w=")[-1][0], p, k)
             t = got.split()
             P = None
             chk.count(("ext", line))
